@@ -9,11 +9,11 @@ import vlib
 
 CLAUSES = {
     "C03": {"deliver_once", "deliver_in_order", "deliver_nothing_below_start", "deliver_unknown_offset", "no_skip",
-            "deliver_content_equals_log", "all_visible_delivered", "deliver_after_close"},
+            "deliver_content_equals_log", "all_visible_delivered", "deliver_after_close", "no_panic"},
     "C11": {"control_never_delivered", "no_aborted_delivered", "all_committed_and_plain_delivered",
             "deliver_beyond_stable_offset", "no_skip", "all_visible_delivered"},
-    "C18": {"consumer_intercept_once", "consumer_intercept_chain_order", "consumer_intercept_before_delivery"},
-    "C12": {"close_returns", "channels_closed", "deliver_after_close"},
+    "C18": {"consumer_intercept_once", "consumer_intercept_chain_order", "consumer_intercept_before_delivery", "no_panic"},
+    "C12": {"close_returns", "channels_closed", "deliver_after_close", "no_panic"},
 }
 
 V2_VERSIONS = ["0.11.0.0", "1.1.0", "2.1.0", "2.3.0"]
@@ -138,7 +138,9 @@ def close_scenarios(logs, rnd, nlogs):
                            leaders=[1], nbrokers=1, maxProcMs=20, readTimeoutMs=100)
                 sc = {"name": "close-%d-k%d-%s" % (i, k, fname), "family": "closepoints", "cfg": cfg, "logs": {"0": lg},
                       "consume": [{"part": 0, "start": 0}], "expectAll": {"0": False},
-                      "steps": [{"op": "wait_delivered", "part": 0, "n": k, "ms": 1500}, {"op": "async_close_pc" if k % 2 else "close_pc", "part": 0}]}
+                      "steps": [{"op": "wait_delivered", "part": 0, "n": k, "ms": 1500}, {"op": "async_close_pc" if k % 2 else "close_pc", "part": 0},
+                                {"op": "close_pc_again", "part": 0}]}
+                sc["cfg"]["doubleClose"] = True
                 if plan:
                     sc["fetchPlans"] = {"0:%d" % (1 + k % 2): plan}
                 out.append(sc)
@@ -152,7 +154,13 @@ def run_scenarios(ctx, scenarios, name="cons", shards=8, timeout=1500):
             f.write(json.dumps(s) + "\n")
     rc, out, trace, sums = ctx.go_test_parallel("^TestVerifConsumer$", cases, nproc=12, timeout=timeout, name=name,
                                                 only=["sim_cluster*", "sim_fetch*", "prod_driver*", "cons_driver*"])
-    ctx.need_go(rc, out, "consumer scenarios (%s)" % name)
+    crash = []
+    if rc != 0 and ("panic: " in out or "fatal error: " in out):
+        crash = vlib.crash_violations(out)
+        if crash is None:
+            ctx.need_go(rc, out, "consumer scenarios (%s)" % name)
+    elif rc != 0:
+        ctx.need_go(rc, out, "consumer scenarios (%s)" % name)
     rs = ctx.tlc_trace("ConsumerObsTrace", "ConsumerObsTrace.cfg", trace, shards=shards, name="trace-" + name)
     viols, stats = [], {}
     for r in rs:
@@ -165,7 +173,7 @@ def run_scenarios(ctx, scenarios, name="cons", shards=8, timeout=1500):
         viols += vlib.trace_viols(r)
     if stats.get("simerr", 0) > 0:
         raise vlib.Inconclusive("simulated cluster reported an internal error (sim_error event) in %s" % name)
-    if stats.get("traces", 0) != len(scenarios):
+    if stats.get("traces", 0) != len(scenarios) and not crash:
         raise vlib.Inconclusive("validated %d traces, ran %d scenarios" % (stats.get("traces", 0), len(scenarios)))
     if viols:
         events = vlib.read_ndjson(trace)
@@ -180,7 +188,7 @@ def run_scenarios(ctx, scenarios, name="cons", shards=8, timeout=1500):
             v["features"] = {"scenario": cfg.get("name"), "family": cfg.get("family"), "iso": cfg.get("iso"),
                              "version": cfg.get("version"), "slow_reader": stalled, "event": e,
                              "log": next((x.get("batches") for x in tr if x["ev"] == "logdef" and x.get("part") == e.get("part")), None)}
-    return viols, stats, trace, cases
+    return viols + crash, stats, trace, cases
 
 
 def check(ctx, pid, clauses, scenarios, mc_runs, gen_stats, extra_viols=None, extra_cov=None):
